@@ -21,8 +21,7 @@ Transcribes, from `/repo/server/lib/src`:
 
 Entry states and their merge are C08's (`KanidmModel/ReplMerge.lean`).  The comparison operators, the
 order anchor-then-trim and the two windows are generated (`Generated/ReapOps.lean`, item
-`repl-reap-ops`).  The update vector is the list of cids it indexes; timestamps are `Nat` (the
-harness uses whole seconds).
+`repl-reap-ops`).  The update vector is the list of cids it indexes; timestamps are `Nat` nanoseconds.
 -/
 namespace Kanidm.ReplReap
 open Kanidm.Cid (Cid cidLt)
@@ -33,9 +32,12 @@ open Kanidm.Gen.ReapOps
 /-- `ReplicationUpdateVector.data` (its keys); `ranged` is derived from it. -/
 abbrev RuvData := List Cid
 
-/-- `Cid::sub_secs`: `None` = `Err(InvalidReplChangeId)`. -/
+/-- timestamps are `Duration`s in nanoseconds -/
+def nanosPerSec : Nat := 1000000000
+
+/-- `Cid::sub_secs`: `self.ts.checked_sub(Duration::from_secs(secs))`; `None` = `Err(InvalidReplChangeId)`. -/
 def subSecs (c : Cid) (secs : Nat) : Option Cid :=
-  if c.ts < secs then none else some ⟨c.ts - secs, subSecsServer⟩
+  if c.ts < secs * nanosPerSec then none else some ⟨c.ts - secs * nanosPerSec, subSecsServer⟩
 
 /-- the trim cid of a transaction whose cid is `c` -/
 def trimCid (c : Cid) : Option Cid := subSecs c changelogMaxAge
